@@ -77,6 +77,12 @@ class C18(Check):
         out.append(Space("oddapp<=7", qspaces.describe("oddapp", 3, 7, qspaces.POOL2),
                          (lambda: qspaces.enumerate_sources("oddapp", 3, 7, qspaces.POOL2, annot=_oor_annot)),
                          runner="run_odd"))
+        out.append(Space("oddapp2<=8", qspaces.describe("oddapp2", 4, 8 if Q else 9, qspaces.POOL2),
+                         (lambda: qspaces.enumerate_sources("oddapp2", 4, 8 if Q else 9, qspaces.POOL2, annot=_oor_annot)),
+                         runner="run_odd"))
+        out.append(Space("oddapp3", qspaces.describe("oddapp3", 5, 9 if Q else 10, qspaces.POOL2),
+                         (lambda: qspaces.enumerate_sources("oddapp3", 5, 9 if Q else 10, qspaces.POOL2, annot=_oor_annot)),
+                         runner="run_odd"))
         for pool in (qspaces.POOL2,):
             hi = 7 if Q else 9
             out.append(Space(f"odd<={hi}", qspaces.describe("odd", 3, hi, pool),
